@@ -195,9 +195,8 @@ func (d *Decoder) readTypedMap() (interface{}, error) {
 			return nil, err
 		}
 
-		//nil map
 		if key == nil {
-			break
+			return nil, newCodecError("readTypedMap", "null map key")
 		}
 
 		value, err := d.ReadData()
@@ -238,9 +237,11 @@ func (d *Decoder) readUntypedMap() (interface{}, error) {
 			return nil, err
 		}
 
-		// nil map
 		if key == nil {
-			break
+			return nil, newCodecError("readUntypedMap", "null map key")
+		}
+		if !reflect.TypeOf(key).Comparable() {
+			return nil, newCodecError("readUntypedMap", "map key of type %T cannot be a Go map key", key)
 		}
 
 		value, err := EnsureInterface(d.ReadData())
@@ -254,7 +255,10 @@ func (d *Decoder) readUntypedMap() (interface{}, error) {
 }
 
 func (d *Decoder) readMap(dest reflect.Value) error {
-	tag, _ := d.readTag()
+	tag, err := d.readTag()
+	if err != nil {
+		return tagReadError(err)
+	}
 
 	switch tag {
 	case _nilTag:
@@ -292,7 +296,7 @@ func (d *Decoder) readMap(dest reflect.Value) error {
 		}
 
 		if key == nil {
-			break
+			return newCodecError("readMap", "null map key")
 		}
 
 		vl, err := d.ReadData()
